@@ -13,9 +13,9 @@ func init() { register("C12", propC12) }
 
 func propC12() *Property {
 	return &Property{
-		ID:      "C12",
-		NeedCG:  false,
-		Decides: "R12.1 every outbound connect/datagram to a peer-designated address in the server-side SOCKS5 code is preceded by the egress decision: CONNECT dials only under FindAction()==DIRECT, each relayed UDP datagram is sent only past the per-datagram destination filter, and both relay loops are wired to a filter built from isDestinationAllowed and the mieru session's user; R12.2 the truth table of isDestinationAllowed (by constant propagation over the address-class predicates IsLoopback/IsPrivate/IsUnspecified x the three allow flags, plus the empty-host, IP-literal-as-name and well-known-name scenarios) is the one the property states; R12.3 destination names are compared with the local-name tables only through strings.EqualFold; R12.4 the decision and the handler parse the request with the same parser and the dial string is that request's DstAddr; R12.5 egress rules: first match wins and the private/loopback gate runs before the rule loop; R12.6 the user identity given to the decision comes from the mieru session (UserContext), not from SOCKS5 data.",
+		ID:         "C12",
+		NeedCG:     false,
+		Decides:    "R12.1 every outbound connect/datagram to a peer-designated address in the server-side SOCKS5 code is preceded by the egress decision: CONNECT dials only under FindAction()==DIRECT, each relayed UDP datagram is sent only past the per-datagram destination filter, and both relay loops are wired to a filter built from isDestinationAllowed and the mieru session's user; R12.2 the truth table of isDestinationAllowed (by constant propagation over the address-class predicates IsLoopback/IsPrivate/IsUnspecified x the three allow flags, plus the empty-host, IP-literal-as-name and well-known-name scenarios) is the one the property states; R12.3 destination names are compared with the local-name tables only through strings.EqualFold; R12.4 the decision and the handler parse the request with the same parser and the dial string is that request's DstAddr; R12.5 egress rules: first match wins and the private/loopback gate runs before the rule loop; R12.6 the user identity given to the decision comes from the mieru session (UserContext), not from SOCKS5 data.",
 		NotDecided: "what the OS resolver does with other spellings of local names (trailing dot, IDNA), DNS answers pointing into private space (explicitly outside the statement), the net.IP predicates themselves (library).",
 		Rules: []Rule{
 			{ID: "R12.1", Floor: 6, Text: "outbound sites: handleConnect's DialContext only via handleRequest under FindAction()==DIRECT; WriteToUDP with a datagram-designated address only past allow(addr)==true; relay loops receive a non-nil filter that calls isDestinationAllowed with UserContext.UserName()", Run: r12_1},
@@ -404,9 +404,9 @@ type scenario struct {
 	want   bool
 }
 
-func cBool(b bool) cval    { return cval{known: true, v: constant.MakeBool(b)} }
-func cInt(i int64) cval    { return cval{known: true, v: constant.MakeInt64(i)} }
-func cStr(s string) cval   { return cval{known: true, v: constant.MakeString(s)} }
+func cBool(b bool) cval  { return cval{known: true, v: constant.MakeBool(b)} }
+func cInt(i int64) cval  { return cval{known: true, v: constant.MakeInt64(i)} }
+func cStr(s string) cval { return cval{known: true, v: constant.MakeString(s)} }
 
 func assumeBy(calls, fields map[string]cval) func(v ssa.Value) (cval, bool) {
 	return func(v ssa.Value) (cval, bool) {
